@@ -70,7 +70,7 @@ def make_build(spec, law, sizes):
 
   def build(c):
     need = {'assoc': (na, nb, nc, 0), 'commute': (na, nb, 0, 0), 'neutral': (na, 0, 0, 0),
-            'operand': (na, nb, 0, 1), 'reread': (na, nb, 0, 1)}[law]
+            'operand': (na, nb, 0, 1), 'reread': (na, nb, 0, 1), 'nary': (na, nb, nc, 1)}[law]
     rows, k = [], 0
     for cnt in need:
       rows.append([spec.gen(c, k + j) for j in range(cnt)])
@@ -123,6 +123,21 @@ def make_build(spec, law, sizes):
         r3 = O(a2)
         twin = merge(st(ra), st(rb)); twin.add(*spec.to_batch(rx))
         return (r1, r2, r3), (b_before, b_before, O(twin))
+      res = guarded(run)
+      out['left'], out['right'] = res if res[0] != 'EXC' else (res, None)
+    elif law == 'nary':
+      # one n-ary merge_states call over four states (what a sharded run does): the result is the left fold and none of the
+      # merged-in states 2..4 is modified
+      from ml_metrics._src.aggregates import base as agg_base
+      def run():
+        ms = [st(ra), st(rb), st(rc), st(rx)]
+        if isinstance(ms[0], metric_specs._AggAcc):
+          out_ = metric_specs._AggAcc(ms[0].fn)
+          out_.state = ms[0].fn.merge_states([m.state for m in ms])
+        else:
+          out_ = agg_base.MergeableMetricAggFn.merge_states(None, ms)      # `self` is not used by the real method
+        twin = merge(merge(merge(st(ra), st(rb)), st(rc)), st(rx))
+        return (O(out_), O(ms[1]), O(ms[2]), O(ms[3])), (O(twin), O(st(rb)), O(st(rc)), O(st(rx)))
       res = guarded(run)
       out['left'], out['right'] = res if res[0] != 'EXC' else (res, None)
     elif law == 'reread':
@@ -259,6 +274,10 @@ def worker(job):
           'samples': [{'metric': name, 'law': law, 'batch sizes of a,b,c': list(sizes), 'paths': res.paths, 'claims_proved_unsat': res.discharged}]}
 
 
+# four symbolic rows exceed the quick path budget (4000) for these; the thorough tier (40000 paths) runs them
+NARY_HEAVY = ('ConfusionMatrixMulticlassMicro', 'ConfusionMatrixMulticlassMacro', 'ThresholdedRetrieval', 'TopKConfusionMatrix', 'SamplewiseClassification')
+
+
 def classify(r, f):
   return f"{r['job'][0]}:{r['job'][1]}"
 
@@ -282,12 +301,14 @@ def run(tier):
       continue
     if s.name.startswith('TopKWordNGrams_k2') or s.name == 'TopKRetrievalRagged':
       continue   # ragged rankings: the k-list truncation defect is recorded under C01 (known finding) and would only repeat here
-    for law in ('assoc', 'commute', 'neutral', 'operand', 'reread'):
+    for law in ('assoc', 'commute', 'neutral', 'operand', 'reread', 'nary'):
       if law == 'commute' and not s.order_insensitive:
         continue
       for sh in shapes:
+        if law == 'nary' and (sh != (1, 1, 1) or (tier == 'quick' and s.name in NARY_HEAVY)):
+          continue
         jobs.append((s.name, law, sh, tier, common.seed()))
-  rep.bounds(batch_sizes_of_a_b_c=shapes, laws=['assoc', 'commute', 'neutral', 'operand', 'reread'], metrics=[s.name for s in specs],
+  rep.bounds(batch_sizes_of_a_b_c=shapes, laws=['assoc', 'commute', 'neutral', 'operand', 'reread', 'nary (one merge_states call over 4 states)'], metrics=[s.name for s in specs],
              note='each state is built from one batch of the given size by the real add(); the empty state is the freshly made accumulator')
   rep.outside('floating-point rounding', '+-inf intermediate values (cut paths counted)', 'states built from more than 2 rows per batch',
               'FixedSizeSample: only the operand/size/membership/reviewed-count law with directly constructed reservoirs')
